@@ -244,7 +244,7 @@ func fnJobs(g *hc.Gen, budget int) []*job {
 		jobs = append(jobs, callJob("fn", []string{"fn:NOW", fmt.Sprintf("arity:%d", k), "where:scalar"}, nil, "SELECT NOW(", randArgs(k, false), ")"))
 		jobs = append(jobs, callJob("fn", []string{"fn:JSON_OBJECT", fmt.Sprintf("arity:%d", k), "where:table_cpu4"}, cpu4, "SELECT JSON_OBJECT(", randArgs(k, true), ") FROM big"))
 		// user-defined scalar and aggregate functions: wrong argument counts, defaults, recursion to a bounded depth
-		udf := "DECLARE uf FUNCTION (@x, @y DEFAULT " + pick(g, pool) + ") AS BEGIN IF @x IS NULL OR NOT (@x >= 1 AND @x <= 40) THEN RETURN @y; END IF; RETURN uf(@x - 1, @y); END"
+		udf := "DECLARE uf FUNCTION (@x, @y DEFAULT " + pick(g, pool) + ") AS BEGIN IF @x >= 1 AND @x <= 40 THEN RETURN uf(@x - 1, @y); END IF; RETURN @y; END" // recursion only while the bound is TRUE (NaN, NULL, text: no recursion)
 		uag := "DECLARE ua AGGREGATE (cur, @p DEFAULT " + pick(g, pool) + ") AS BEGIN VAR @v, @s := 0; WHILE @v IN cur DO @s := @s + @v; END WHILE; RETURN @s || @p; END"
 		a := randArgs(k, true)
 		jobs = append(jobs, progJob("fn", []string{"fn:(user-defined function)", fmt.Sprintf("arity:%d", k)}, cpu4, udf, "SELECT uf("+strings.Join(a, ", ")+") FROM t"))
